@@ -287,6 +287,62 @@ def ob_meta(ctx, encs):
     return verdict(ctx, [('records', bool(ok_))], witness=wit, sample=lambda m: {'sid': sid, 'where': where, 'enc': eff, 'json': js})
 
 
+def ob_meta_bytes(ctx, W):
+    """a metadata section whose JSON text contains a window of symbolic raw bytes inside a string literal: the reader
+    must accept exactly when the bytes decode under the effective encoding to valid JSON (REF_READ + the JSON grammar:
+    CPython's decoder under instrumentation on both sides), with the same value; otherwise DiffXParseError"""
+    import ref.spec as S
+    from sx import instrument as _ins
+    from pydiffx.errors import DiffXParseError
+    crlf = bool(ctx.choose(0, 1, 'crlf-headers'))
+    g = Gen(crlf)
+    own, anc = ctx.pick('enc', [(None, None), (None, 'utf-8'), ('latin-1', 'utf-8'), (None, 'utf-16'), ('utf-16-be', None),
+                                ('utf-8', 'utf-16'), (None, 'ascii'), ('utf-32-le', 'utf-8')])
+    sid = ctx.pick('sid', ['.meta', '...meta'])
+    g.container('diffx', [('version', '1.0')] + ([('encoding', anc)] if anc else []))
+    if sid == '...meta':
+        g.container('.change', [])
+        g.container('..file', [])
+    eff = S.effective_encoding(g.chain, own, sid)
+    unit = {'utf-16': 2, 'utf-16-be': 2, 'utf-32-le': 4}.get(eff, 1)
+    w = ctx.choose(1, W, 'w')
+    win = sym_bytes(ctx, 'j', w * unit)
+    place = ctx.pick('place', ['string', 'key', 'bare'])
+    pre, post = {'string': ('{"k": "', '"}'), 'key': ('{"', '": 1}'), 'bare': ('[', ']')}[place]
+    bom_less = {'utf-16': 'utf-16-le', 'utf-32': 'utf-32-le'}.get(eff, eff) or 'ascii'
+    head = pre.encode(eff or 'ascii')
+    raw = mk_seq(tuple(head) + tuple(win.el) + tuple(post.encode(bom_less)) + tuple(S.newline_bytes('unix', eff)), bytes)
+    opts = ([('encoding', own)] if own else []) + [('format', 'json')]
+    wit = lambda m: {'kind': 'meta-bytes', 'data': model_bytes(m, g.data()), 'sid': sid, 'raw': model_bytes(m, raw)}
+    expected_md = None
+    malformed = None
+    try:
+        rec = g.content(sid, opts, raw)
+        try:
+            expected_md = _ins.h_call(json.loads, rec['metadata'])
+        except ValueError as e:
+            malformed = 'not JSON: %s' % type(e).__name__
+    except S.Malformed as e:
+        malformed = str(e)
+    if sid == '.meta':
+        g.container('.change', [])
+        g.container('..file', [])
+        g.filler('...meta', [], '{}')
+    data = g.data()
+    recs, err = _compare(ctx, g, data, None, wit)
+    if malformed is not None:
+        if err is None:
+            return viol('accepts-malformed-metadata(%s)' % malformed.split(':')[0], wit(ctx.model()))
+        return ok(note='both reject')          # (the exception type is C08's subject)
+    if err is not None:
+        return viol('rejects-wellformed:%s' % type(err).__name__, dict(wit(ctx.model()), error=str(err)[:200]))
+    if len(recs) != len(g.expected):
+        return viol('record-count', wit(ctx.model()))
+    r = [x for x in recs if x['section'] == sid][0]
+    return verdict(ctx, [('metadata', value_eq(r.get('metadata'), expected_md)),
+                         ('line', value_eq(r.get('line'), rec['line']))], witness=wit, sample=lambda m: wit(m))
+
+
 BASE = [
     ('diffx', [('version', '1.0'), ('encoding', 'utf-8')], None),
     ('.preamble', [('indent', 2), ('line_endings', 'unix')], b'  Top\n  text\n'),
@@ -375,6 +431,11 @@ def obligations(tier):
     obs.append(Ob('meta', ob_meta, dict(encs=_enc_cfg(E8)), must_reach=['DiffXReader.iter_sections'],
                   desc='metadata sections: JSON catalogue (compact / pretty) x encodings x levels x header styles',
                   bounds={'catalogue': len(JSONS)}))
+    W = 1 if tier == 'quick' else 2
+    obs.append(Ob('meta[symbolic-bytes]', ob_meta_bytes, dict(W=W), must_reach=['DiffXReader.iter_sections'], path_timeout=30,
+                  desc='metadata whose JSON text has a window of 1..%d symbolic code units (raw bytes) inside a string, a key '
+                       'or an array, under 8 own/inherited encodings: accepted iff the bytes decode to valid JSON, same value' % W,
+                  bounds={'window_units': [1, W], 'encodings': 8}))
     obs.append(Ob('defects', ob_defects, {}, must_reach=['DiffXReader.iter_sections'],
                   desc='every single-defect mutation from the catalogue is rejected with a DiffXParseError whose line '
                        'number lies in the offending section', bounds={'defect_kinds': 7}))
@@ -487,7 +548,10 @@ def _ref_read_file(data, S):
             if sid.endswith('preamble'):
                 rec['text'] = val
             elif sid.endswith('meta'):
-                rec['metadata'] = json.loads(val)
+                try:
+                    rec['metadata'] = json.loads(val)
+                except ValueError as e:
+                    raise S.Malformed('metadata is not JSON: %s' % type(e).__name__)
             else:
                 rec['diff'] = val
         out.append(rec)
